@@ -24,17 +24,38 @@ MANIFEST = dict(
     technique="PLACEHOLDER",
 )
 
-THEOREMS = ["C15_string_escape"]
+THEOREMS = ["C15_string_escape", "C15_roundtrip_partial", "C15_roundtrip_exact", "C15_reassociation_refuted"]
 ALLOWED_AXIOMS = []
-EXTRA_VO = []
-MODEL_IMPORTS = []
+EXTRA_VO = ["theories/Syntax/ExecTyped.vo"]
+MODEL_IMPORTS = ["Syntax.Ast", "Syntax.TypedPrinter", "Syntax.ExecTyped"]
 TRUSTED = [
+    "model Syntax/TypedPrinter.v is a hand port of typed_ast.rs impl PrettyPrint for Expression / pretty_print_binop / with_parens / with_parens_liberal / call_syntax / is_temperature_sugar; Syntax/StrEsc.v of pretty_print.rs escape_numbat_string and parser.rs strip_and_escape",
+    "correspondence: tokens of the implementation's echo (numbat::verif::syntax::dump_tokens) vs Syntax.ExecTyped.show_pp of the typed tree the generator intends (vm_compute in coqc)",
+    "the parser model of C10 (Syntax/Parser.v), tied to parser.rs by the C10 check",
     "oracle: harness `echo` interprets through the public API numbat::Context::interpret and Statement::pretty_print",
 ]
 
 
 def model_items(chk, binary, quick):
-    return [], []
+    """typed trees -> (model token dump of the echo, implementation token dump of the echo)"""
+    from props import ttree
+    g = ttree.TGen(chk.rng)
+    trees = []
+    for c in json.load(open(os.path.join(common.VERIF, "corpus", "c15_trees.json"))):
+        trees.append(eval(c["tree"], {"__builtins__": {}}, {"True": True, "False": False}))
+    for _ in range(1500 if quick else 30000):
+        trees.append(g.any(chk.rng.choice([1, 2, 2, 3, 3, 4, 5])))
+    cases = [dict(setup=echogen.SETUP, stmt=ttree.src(t), probe="") for t in trees]
+    res = run_echo(binary, cases)
+    keep = [n for n, r in enumerate(res) if r["status"] == "OK"]
+    dumps = common.run_harness(binary, "syntax", [L.hexline(res[n]["echo"]) for n in keep])
+    items, idx = [], []
+    for n, dline in zip(keep, dumps):
+        toks = dline[2:].split(" | A ", 1)[0] if dline.startswith("T ") else dline
+        items.append(("show_pp " + ttree.coq(trees[n]), toks))
+        idx.append({"source": cases[n]["stmt"], "echo": res[n]["echo"]})
+    chk.cov["model_cases_generated"] = len(trees)
+    return items, idx
 
 KNOWN = [f for f in common.load_known() if f.get("property") == "C15"]
 
